@@ -51,7 +51,7 @@ PROBES = [
     "reused_address_still_cached", "legit_cache_hit_possible", "eviction_ran",
     "process_pool_used", "lookalike_neighbours_in_batch",
     "second_fit_same_reactor", "nested_parallel", "crash_mid_fit",
-    "cluster_batched", "validate_parallel", "validate_tautomer_sensitive_pair", "balance_parallel", "crn_parallel",
+    "cluster_batched", "validate_parallel", "validate_tautomer_sensitive_pair", "validate_aromaticity_sensitive_pair", "balance_parallel", "crn_parallel",
 ]
 REAL = ["synkit.Synthesis.Reactor.batch_reactor (BatchReactor, _RuleApplier, _apply_rule_raw)",
         "synkit.Synthesis.Reactor.syn_reactor.SynReactor and everything beneath (matcher, ITS gluing, RDKit)",
@@ -219,7 +219,7 @@ def generate(seed: int, tier: str = "quick") -> Dict[str, Any]:
                 "as_dict": rng.random() < 0.25}
 
     def gen_fit(slot: int) -> Dict[str, Any]:
-        n_r = rng.randint(1, 4)
+        n_r = rng.randint(1, 4) if rng.random() < 0.8 else rng.randint(5, 8)
         rl = [rng.randrange(len(rnames)) for _ in range(n_r)]
         if rng.random() < 0.2 and n_r > 1:
             rl[-1] = rl[0]
@@ -254,6 +254,8 @@ def generate(seed: int, tier: str = "quick") -> Dict[str, Any]:
                 o2 = copy.deepcopy(o)
                 o2["s"] = s()
                 o2["ignore_tautomers"] = not o.get("ignore_tautomers", True)
+                if rng.random() < 0.5:
+                    o2["ignore_aromaticity"] = not o.get("ignore_aromaticity", False)
                 o2["n_jobs"] = rng.choice([1, 1, 2, 4])
                 ops.append(o2)
         else:
